@@ -104,7 +104,10 @@ def check_case(ctx, c):
     for k in settled:
         a = D.step_value(dense_samples, P * k)
         b = dv[k]
-        if a is None or a != a or b != b:
+        if a is None:
+            return Violation("the dense-time result has no value at the sampling instant t=%s (sample %d, horizon %d, n=%d), the "
+                             "discrete-time robustness there is %r: %s" % (P * k, k, h, n, b, text), rep, stream="grid")
+        if a != a or b != b:
             continue
         if not common.num_eq(a, b):
             return Violation("at the sampling instant t=%s (sample %d, horizon %d, n=%d) the dense-time robustness is %r and the "
